@@ -37,14 +37,17 @@ def key_pools():
     }
 
 
-def literal_accepted(t, coll_t, lit, kind):
-    """Does pytezos accept PUSH (set t | map t unit) literal?"""
+def literal_accepted(t, coll_t, lit, kind, vals=None):
+    """Does pytezos accept PUSH (set t | map t unit) literal?  vals: for maps, nat values by position instead of Unit (the value type becomes nat)"""
     from pytezos.michelson.instructions.base import MichelsonInstruction
     from pytezos.michelson.micheline import MichelsonRuntimeError
     from pytezos.michelson.stack import MichelsonStack
     from pytezos.context.impl import ExecutionContext
     if kind == 'set':
         val = [terms.value_json(t, k) for k in lit]
+    elif vals is not None:
+        val = [{'prim': 'Elt', 'args': [terms.value_json(t, k), {'int': str(x)}]} for k, x in zip(lit, vals)]
+        coll_t = (coll_t[0], coll_t[1], ('nat',))
     else:
         val = [{'prim': 'Elt', 'args': [terms.value_json(t, k), {'prim': 'Unit'}]} for k in lit]
     ins = {'prim': 'PUSH', 'args': [terms.type_json(coll_t), val]}
@@ -78,8 +81,12 @@ def run(ctx):
     # literals
     for v in [v for v in r.printed if v[0] == 'OUT']:
         _, t, lit, ok = v
-        for kind, ct in (('set', SET(t)), ('map', MAP(t, UNIT))):
-            got = literal_accepted(t, ct, lit, kind)
+        for kind, ct, pat in (('set', SET(t), None), ('map', MAP(t, UNIT), None), ('map', MAP(t, UNIT), list(range(len(lit)))), ('map', MAP(t, UNIT), list(range(len(lit), 0, -1)))):
+            if pat is not None and len(lit) < 2:
+                continue
+            got = literal_accepted(t, ct, lit, kind, pat)
+            if pat is not None:       # acceptance is a matter of the keys alone, whatever the bound values are (ascending / descending)
+                kind = 'map-values-%s' % ('ascending' if pat[0] < pat[-1] else 'descending')
             ctx.replayed += 1
             ctx.count(('lit', kind, t, lit), nontrivial=len(lit) >= 2)
             if got != ok:
@@ -115,7 +122,9 @@ def replay(ctx, rep):
     if 'literal' in c:
         tup = lambda x: tuple(tup(y) for y in x) if isinstance(x, list) else x
         t, lit = tup(c['type']), tup(c['literal'])
-        got = literal_accepted(t, SET(t) if c['kind'] == 'set' else MAP(t, UNIT), lit, c['kind'])
+        n = len(lit)
+        vals = {'map-values-ascending': list(range(n)), 'map-values-descending': list(range(n, 0, -1))}.get(c['kind'])
+        got = literal_accepted(t, SET(t) if c['kind'] == 'set' else MAP(t, UNIT), lit, 'set' if c['kind'] == 'set' else 'map', vals)
         print('pytezos accepts' if got else 'pytezos rejects', 'model', c['ok'])
         return 0 if got == c['ok'] else 1
     return C01.replay(ctx, rep)
